@@ -1000,6 +1000,10 @@ pub enum Op {
 	/// the counterparty posts the initiator's own first slate back to the initiator's foreign
 	/// finalize_tx (wrong state: refused); the refusal is a message handed to a peer too
 	EchoFinalize { slot: usize },
+	/// (invoices) the issuer makes out a second invoice, with a fresh nonce and excess, under the slate id of
+	/// the first one, and the payer processes it: whatever it answers must not carry the nonce it used before
+	/// under another signature
+	RespondTwin { slot: usize },
 }
 
 #[derive(Clone, Debug, Serialize, Deserialize)]
@@ -1025,6 +1029,9 @@ struct Rec {
 	nonce: String,
 	xs: String,
 	src: String,
+	/// the partial signature that went out with the nonce, if any
+	#[serde(default)]
+	part: String,
 }
 
 fn slots(w: &World) -> Vec<Option<Slot>> {
@@ -1219,10 +1226,14 @@ fn emitted_forms(w: &World, actor: &str, what: &str, slate: &Slate, msgs: &mut V
 }
 
 fn sigs_of(slate_json: &str) -> Vec<(String, String)> {
+	sigs3_of(slate_json).into_iter().map(|x| (x.0, x.1)).collect()
+}
+
+fn sigs3_of(slate_json: &str) -> Vec<(String, String, String)> {
 	let v: Value = serde_json::from_str(slate_json).unwrap_or(Value::Null);
 	v["sigs"]
 		.as_array()
-		.map(|a| a.iter().map(|s| (s["nonce"].as_str().unwrap_or("").to_owned(), s["xs"].as_str().unwrap_or("").to_owned())).collect())
+		.map(|a| a.iter().map(|s| (s["nonce"].as_str().unwrap_or("").to_owned(), s["xs"].as_str().unwrap_or("").to_owned(), s["part"].as_str().unwrap_or("").to_owned())).collect())
 		.unwrap_or_default()
 }
 
@@ -1233,7 +1244,7 @@ fn pub_hex(k: &SecretKey) -> String {
 }
 
 fn push_rec(r: &mut Vec<Rec>, x: Rec) {
-	if !r.iter().any(|y| y.w == x.w && y.slate == x.slate && y.nonce == x.nonce && y.xs == x.xs) {
+	if !r.iter().any(|y| y.w == x.w && y.slate == x.slate && y.nonce == x.nonce && y.xs == x.xs && (y.part == x.part || x.part.is_empty())) {
 		r.push(x);
 	}
 }
@@ -1244,6 +1255,10 @@ fn freshness_violations(r: &[Rec]) -> Vec<(String, String)> {
 	let mut pairs = 0u64;
 	for i in 0..r.len() {
 		for j in i + 1..r.len() {
+			if r[i].w == r[j].w && r[i].slate == r[j].slate && !r[i].nonce.is_empty() && r[i].nonce == r[j].nonce && !r[i].part.is_empty() && !r[j].part.is_empty() && r[i].part != r[j].part {
+				// one nonce, two different partial signatures: the secret key follows from the pair
+				v.push(("nonce-reuse/two-signatures-under-one-nonce".to_owned(), format!("wallet {} handed out two different partial signatures made with public nonce {} for slate {} ({} and {})", r[i].w, r[i].nonce, r[i].slate, r[i].src, r[j].src)));
+			}
 			if r[i].w != r[j].w || r[i].slate == r[j].slate {
 				continue;
 			}
@@ -1361,6 +1376,27 @@ impl M {
 					Err(e) => out.label = e,
 				}
 			}
+			Op::RespondTwin { slot } => {
+				let s = sl[*slot].as_mut().unwrap();
+				let first = slate_from_json(&s.s1);
+				let ini = w.w(s.kind.initiator());
+				let resp = w.w(s.kind.responder());
+				let twin = ini.issue_invoice(IssueInvoiceTxArgs { amount: first.amount, ..Default::default() });
+				match twin {
+					Ok(mut t) => {
+						t.id = first.id;
+						match resp.process_invoice(&t, default_args(0)) {
+							Ok(s2) => {
+								emitted_forms(w, s.kind.responder(), "respond-twin", &s2, &mut msgs);
+								contributed = Some((s.kind.responder().into(), format!("{:?}:responder-twin", s.kind), Some(slate_to_json(&t)), s2));
+								out.label = "ok".into();
+							}
+							Err(e) => out.label = err_label(&e),
+						}
+					}
+					Err(e) => out.label = err_label(&e),
+				}
+			}
 			Op::Lock { slot } => {
 				let s = sl[*slot].as_mut().unwrap();
 				let slate = slate_from_json(if s.kind.is_invoice() { s.s2.as_ref().unwrap() } else { &s.s1 });
@@ -1442,10 +1478,10 @@ impl M {
 		// (d) what the acting wallet added to the slate, and the public images of every stored context
 		if let Some((actor, flow, input, output)) = contributed {
 			let before_sigs = input.map(|j| sigs_of(&j)).unwrap_or_default();
-			for (nonce, xs) in sigs_of(&slate_to_json(&output)) {
+			for (nonce, xs, part) in sigs3_of(&slate_to_json(&output)) {
 				if !before_sigs.iter().any(|b| b.0 == nonce && b.1 == xs) {
 					hist(&format!("contribution:{}", flow));
-					push_rec(&mut rs, Rec { w: actor.clone(), slate: output.id.to_string(), nonce, xs, src: flow.clone() });
+					push_rec(&mut rs, Rec { w: actor.clone(), slate: output.id.to_string(), nonce, xs, src: flow.clone(), part });
 				}
 			}
 		}
@@ -1453,8 +1489,8 @@ impl M {
 		for wl in w.wallets.iter() {
 			for x in ids.iter().flatten() {
 				if let Ok(c) = wl.get_context(&Uuid::parse_str(&x.0).unwrap()) {
-					push_rec(&mut rs, Rec { w: wl.name.clone(), slate: x.0.clone(), nonce: pub_hex(&c.sec_nonce), xs: pub_hex(&c.sec_key), src: format!("{:?}:stored-context", x.1) });
-					push_rec(&mut rs, Rec { w: wl.name.clone(), slate: x.0.clone(), nonce: pub_hex(&c.initial_sec_nonce), xs: pub_hex(&c.initial_sec_key), src: format!("{:?}:stored-context-initial", x.1) });
+					push_rec(&mut rs, Rec { w: wl.name.clone(), slate: x.0.clone(), nonce: pub_hex(&c.sec_nonce), xs: pub_hex(&c.sec_key), src: format!("{:?}:stored-context", x.1), part: String::new() });
+					push_rec(&mut rs, Rec { w: wl.name.clone(), slate: x.0.clone(), nonce: pub_hex(&c.initial_sec_nonce), xs: pub_hex(&c.initial_sec_key), src: format!("{:?}:stored-context-initial", x.1), part: String::new() });
 				}
 			}
 		}
@@ -1530,6 +1566,9 @@ impl Model for M {
 				Some(s) => {
 					if s.s3_tx.is_none() {
 						v.push(Op::Respond { slot: i });
+					}
+					if s.kind == Kind::Invoice && s.s3_tx.is_none() && s.respond_ok > 0 {
+						v.push(Op::RespondTwin { slot: i });
 					}
 					if !s.kind.is_invoice() || s.s2.is_some() {
 						v.push(Op::Lock { slot: i });
@@ -1694,7 +1733,7 @@ fn controls(root: &str) -> Result<Value, String> {
 	for i in 0..2 {
 		let s = a.with(|b| owner::init_send_tx(b, a.mask(), default_args(AMOUNT + i), true)).map_err(|e| format!("control test-rng init: {}", e))?;
 		for (nonce, xs) in sigs_of(&slate_to_json(&s)) {
-			push_rec(&mut rs, Rec { w: "A".into(), slate: s.id.to_string(), nonce, xs, src: "control".into() });
+			push_rec(&mut rs, Rec { w: "A".into(), slate: s.id.to_string(), nonce, xs, src: "control".into(), part: String::new() });
 		}
 	}
 	let v = freshness_violations(&rs);
